@@ -154,6 +154,16 @@ def check(label, m, elabel, e, rng, tier):
         for mode in modes:
             w = facet_weights(nv, rng, mode)
             pts = np.stack([np.einsum("pv,vi->ip", w, Fs[a]) for a in sel], axis=1)     # (d, nf, np)
+            if type(m).__name__.endswith("2"):
+                # second-order (curved) meshes: the facet is the image of the reference facet under the mapping's facet map G (contract C10), not the flat
+                # polygon through its vertices
+                if nv == 2:
+                    Xf = w[:, 1][None, :]
+                elif nv == 3:
+                    Xf = w[:, 1:].T
+                else:
+                    Xf = np.stack([w[:, 1] + w[:, 2], w[:, 2] + w[:, 3]])
+                pts = np.asarray(basis.mapping.G(Xf, find=find[sel]))
             normals = np.stack([facet_normals(Fs[a], w) for a in sel], axis=1)         # (d, nf, np)
             per_facet = False
             try:
